@@ -104,6 +104,9 @@ def cases(draw, convs=S.ALL_CONVS):
         spec["pick"] = {"tstep": draw(st.integers(0, nt - 1))}      # ds.isel(tstep=k) beforehand
     spec["mode"] = draw(st.sampled_from(["raw", "raw", "dask", "file"]))
     spec.update(draw(S.storage_options(conv)))
+    if conv in ("cf1d", "cf2d") and draw(st.integers(0, 2)) == 0:
+        spec["bind"] = "explicit"
+        spec["decoy_latlon"] = True
     return {"spec": spec,
             "vertices": draw(st.lists(VERTEX, min_size=2, max_size=6)),
             "direction": draw(st.integers(0, len(DIRECTIONS) - 1))}
